@@ -433,6 +433,6 @@ def run(facts, tier, ctx):
                             "%s at %s is reachable from parser::stream on untrusted input and nothing on the paths to it "
                             "establishes that %s" % (r["msg"], r["site"], I.show_goal(r["goal"])[:200])))
     im.notes.append("payload bounds %s; SAFE entries used: %d of %d" % (fb, len(used_safe), len(safe_i)))
-    im.require_floor(30, "implicit panic sites on the stream-parse path")
+    im.require_floor(24, "implicit panic sites on the stream-parse path")   # 32 on the reviewed tree; the floor guards against a blind rule, not against helper extraction
     out.append(im)
     return out
